@@ -24,6 +24,12 @@ ASSUMPTIONS = [
 ]
 
 EXTRA = [
+    # probabilities / parameters that depend on the current state (re-evaluated at every execution)
+    "c = 0\nx = 0\nwhile true:\n    c = 1 - c\n    x = 1 {c} 0\nend\n",
+    "c = 1\nx = 0\nwhile true:\n    c = 1 - c\n    x = x + 1 {c/2 + 1/4} x\nend\n",
+    "c = 0\nd = 0\nx = 0\nwhile true:\n    c = Bernoulli(1/2)\n    d = Bernoulli(c/2 + 1/4)\n    x = x + d\nend\n",
+    "c = 0\nd = 0\nwhile true:\n    c = 1 - c\n    d = Categorical(c/2, 1/2, 1/2 - c/2)\nend\n",
+    "c = 2\nx = 0\nwhile c > 0:\n    x = x + 1 {c/4} x - 1\n    c = c - 1 {1/2} c\nend\n",
     "c = 1\nx = 0\nwhile c == 1:\n    x = x + 1\n    c = 0\nend\n",
     "c = 0\nx = 0\nwhile c < 2:\n    c = c + 1 {1/2} c\n    x = x + c\nend\n",
     "x = Bernoulli(1/4)\ny = DiscreteUniform(1, 2)\nwhile true:\n    x, y = y, x\n    y = y + 1 {1/4} y\nend\n",
